@@ -138,6 +138,10 @@ def d2(rep, f, c):
         if len(st) != 1:
             continue
         names = st[0][2] if isinstance(st[0][2], tuple) else (st[0][2],)
+        if None in names or 'None' in names:
+            # the wildcard arm: every variant that has no edge of its own at that switch
+            listed = {variant_of_edge(b, st[0][3], l_) for l_, _ in switch_edges(b, st[0][3])} - {None}
+            names = tuple(sorted(x['name'] for x in adt['variants'] if x['name'] not in listed)) + tuple(n_ for n_ in names if n_ not in (None, 'None'))
         rv = p.env.get(0)
         neutral = [e for e in p.conds() if e[1][0] == 'call' and (e[1][1] or '').endswith('::in_neutral_state')]
         ncond = None
@@ -150,7 +154,7 @@ def d2(rep, f, c):
             out = 'None'
         elif rv is not None and variant_name(rv) == 'Some':
             v = rv[2][0]
-            if v[0] == 'call' and strip_ref(v[2][-1]) == BUF:
+            if v[0] == 'call' and v[1] and strip_ref(v[2][-1]) == BUF:
                 out = 'Some:' + v[1]
             else:
                 out = 'Some:?'
